@@ -387,6 +387,12 @@ func genC18(r *Run) {
 		for k := r.Rng.Intn(6); k >= 0; k-- {
 			s := frameSpec{ihl: 5, proto: 17, version: 4, sip: r.Bytes(4), dip: bip[len(bip)-4:], sport: r.Rng.Intn(65536), dport: bport, truncateTo: -1}
 			s.payload = r.Bytes(r.Pick(0, 1, 7, 8, 9, 240, 300, 600))
+			if r.Rng.Intn(5) == 0 {
+				s.sport = bport // relay to server: 67 to 67; the sender may even sit at the bound address
+				if r.Rng.Intn(2) == 0 {
+					s.sip = s.dip
+				}
+			}
 			if r.Rng.Intn(4) == 0 {
 				// total lengths around the multiples of 256 (the low octet of the length field near 0 .. header size):
 				// a check that looks at one octet of a 16-bit field goes wrong exactly there
